@@ -110,6 +110,49 @@ func checkC11(R *Run) {
 					}
 					return false
 				})
+				if !okAll {
+					// the removal sits in a loop over a literal of the path fields: the loop body runs for every
+					// element, so it is enough that the loop itself is on every successful path and that no
+					// iteration can leave the function with success
+					for _, ci := range callsIn(dl) {
+						fs := elemFields(ci.Common().Args[0])
+						if len(fs) < 2 || !inLoop(ci.Block()) {
+							continue
+						}
+						has := false
+						for _, x := range fs {
+							has = has || shortField(x) == field
+						}
+						if !has {
+							continue
+						}
+						hdr := ci.Block()
+						if u, isU := stripConv(ci.Common().Args[0]).(*ssa.Index); isU {
+							if ii, isI := u.Index.(ssa.Instruction); isI {
+								hdr = ii.Block()
+							}
+						}
+						loopOnPath, _, _ := successMustPass(dl, func(ins ssa.Instruction) bool { return ins.Block() == hdr })
+						// inside the loop, a success return is impossible: every return reachable from the body
+						// without coming back to the header carries a non-nil error
+						escapes := false
+						explore([]psItem{{ci.Block(), nilState{}}}, nil, true, func(b *ssa.BasicBlock, st nilState) bool {
+							if b == hdr {
+								return false
+							}
+							if r, isRet := b.Instrs[len(b.Instrs)-1].(*ssa.Return); isRet {
+								if n := len(r.Results); n > 0 && st.of(r.Results[n-1]) != 2 {
+									escapes = true
+								}
+								return false
+							}
+							return true
+						})
+						if loopOnPath && !escapes {
+							okAll, w = true, nil
+						}
+					}
+				}
 				pos := P.pos(dl.Pos())
 				if w != nil {
 					pos = P.ipos(w)
